@@ -312,6 +312,13 @@ func (g *Gen) line(p token.Pos) int {
 // oblige records an obligation and assumes its goal afterwards (so later obligations are not
 // polluted by earlier failures).
 func (g *Gen) oblige(st *State, kind, name string, line int, goal string) {
+	if g.lemma != nil && kind != "lemma" {
+		// Inside a loop lemma the start state is arbitrary; memory safety, frames, callee
+		// preconditions and arithmetic side conditions are decided by the main pass (under the loop
+		// invariants) and are only assumed here: the lemma is a partial-correctness statement.
+		g.assume(st, goal)
+		return
+	}
 	g.obls = append(g.obls, Obl{Name: name, Kind: kind, Pc: st.pc, Goal: goal, Line: line})
 	g.assume(st, goal)
 }
